@@ -81,9 +81,6 @@ func (fx *FnCtx) applyKnownRegions(d *Driver) {
 		if k.Status != "known" {
 			continue
 		}
-		if d.Prop != "" && k.Property != d.Prop {
-			// findings are per property, but the same obligation may serve several properties
-		}
 		for _, q := range fx.queries {
 			if q.pending == nil || q.IsCover {
 				continue
@@ -223,31 +220,46 @@ func (d *Driver) report() int {
 		exit = 2
 	}
 	for _, np := range d.notProved {
-		fmt.Printf("ERROR not proved (outside subset): %s\n", np)
-		if exit == 0 {
-			exit = 2
-		}
+		fmt.Printf("NOTE not proved (outside subset): %s\n", np)
 	}
-	if len(results) == 0 && len(d.known) == 0 {
+	if d.WriteInv {
+		d.writeInventory(results)
+	}
+	if len(results) == 0 {
 		fmt.Printf("ERROR no obligations generated for property %s\n", prop)
 		exit = 2
 	}
 	// inventory: obligations that used to exist must still exist
 	missing := d.checkInventory(prop, order)
 	for _, m := range missing {
-		fmt.Printf("ERROR obligation vanished (in inventory, not generated now): %s\n", m)
-		if exit == 0 {
-			exit = 2
+		// an obligation that discharged on the unchanged tree can no longer even be generated
+		// (function removed, renamed, or no longer inside the verifiable subset): not decided = not passed
+		rp := filepath.Join(d.Verif, "replays", sanitize(m)+".json")
+		why := "obligation is in the inventory but was not generated on this run"
+		for _, np := range d.notProved {
+			parts := strings.Split(m, ":")
+			if len(parts) > 1 && strings.Contains(np, parts[1]) {
+				why = "function left the verifiable subset: " + np
+			}
 		}
+		b, _ := json.MarshalIndent(map[string]any{"obligation": m, "result": "not-generated", "reason": why, "reproduced_on_real_code": false}, "", " ")
+		os.WriteFile(rp, b, 0o644)
+		fmt.Printf("VIOLATION property=%s replay=%s obligation=%s result=not-generated (%s) no-failing-input-found\n", prop, rp, m, why)
+		violations++
+		exit = 1
 	}
 	// known findings
 	var knownLines []string
 	for _, k := range d.known {
-		if k.Status != "known" || (d.Prop != "" && k.Property != d.Prop) {
+		if k.Status != "known" || (d.Prop != "" && !hasTag(k.Properties, d.Prop)) {
 			continue
 		}
 		if d.witnessStillFails(k) {
-			l := fmt.Sprintf("KNOWN-FINDING: property=%s %s %s", k.Property, k.ID, k.What)
+			pr := d.Prop
+			if pr == "" {
+				pr = strings.Join(k.Properties, ",")
+			}
+			l := fmt.Sprintf("KNOWN-FINDING: property=%s %s obligation=%s %s", pr, k.ID, k.Obligation, k.What)
 			fmt.Println(l)
 			knownLines = append(knownLines, l)
 		}
@@ -433,4 +445,42 @@ func assumptionsFor(prop string) []string {
 // tryReplay is filled in per function family (replay.go).
 func (d *Driver) tryReplay(q *Query) (bool, string) {
 	return replayModel(d, q)
+}
+
+// writeInventory records, per property, the obligations that discharged on this (unchanged-tree) run.
+func (d *Driver) writeInventory(results []oblResult) {
+	path := filepath.Join(d.Verif, "obligations.json")
+	inv := map[string][]string{}
+	if b, err := os.ReadFile(path); err == nil {
+		json.Unmarshal(b, &inv)
+	}
+	tagsOf := map[string][]string{}
+	for _, q := range d.queries {
+		if !q.IsCover {
+			tagsOf[q.Obligation] = q.Tags
+		}
+	}
+	fresh := map[string]map[string]bool{}
+	for _, r := range results {
+		if !r.Discharged {
+			continue
+		}
+		for _, t := range tagsOf[r.Name] {
+			if t == "local" {
+				continue
+			}
+			if fresh[t] == nil {
+				fresh[t] = map[string]bool{}
+			}
+			fresh[t][stripTarget(r.Name)] = true
+		}
+	}
+	for t, m := range fresh {
+		if d.Prop != "" && t != d.Prop {
+			continue
+		}
+		inv[t] = sortedKeys(m)
+	}
+	b, _ := json.MarshalIndent(inv, "", " ")
+	os.WriteFile(path, b, 0o644)
 }
